@@ -1,16 +1,19 @@
 PROP = {
-    'id': 'C04',
-    'functions': [
-        'saml2_tophat.validate:validate_on_or_after',
-        'saml2_tophat.validate:validate_before',
-        'saml2_tophat.time_util:time_in_a_while',
-        'saml2_tophat.time_util:time_a_while_ago',
-        'saml2_tophat.time_util:shift_time',
-        'saml2_tophat.time_util:later_than',
-        'saml2_tophat.response:StatusResponse.issue_instant_ok',
-        'saml2_tophat.response:AuthnResponse.authn_statement_ok',
-        'saml2_tophat.response:AuthnResponse.condition_ok',
-        'saml2_tophat.response:AuthnResponse._bearer_confirmed',
-    ],
-    'level': 'proof',
+ "id": "C04",
+ "functions": [
+  "saml2_tophat.validate:validate_on_or_after",
+  "saml2_tophat.validate:validate_before",
+  "saml2_tophat.time_util:time_in_a_while",
+  "saml2_tophat.time_util:time_a_while_ago",
+  "saml2_tophat.time_util:shift_time",
+  "saml2_tophat.time_util:later_than",
+  "saml2_tophat.response:StatusResponse.issue_instant_ok",
+  "saml2_tophat.response:AuthnResponse.authn_statement_ok",
+  "saml2_tophat.response:AuthnResponse.condition_ok",
+  "saml2_tophat.response:AuthnResponse._bearer_confirmed",
+  "saml2_tophat.response:AuthnResponse._assertion",
+  "saml2_tophat.response:AuthnResponse.get_subject",
+  "saml2_tophat.response:StatusResponse._verify"
+ ],
+ "level": "proof"
 }
